@@ -5,8 +5,9 @@ use std::future::Future;
 use std::io;
 use std::net::{IpAddr, Ipv4Addr, Ipv6Addr, SocketAddr};
 use std::pin::Pin;
-use std::sync::{Arc, Mutex};
-use std::task::{Context, Poll};
+use std::collections::HashSet;
+use std::sync::{Arc, Mutex, OnceLock};
+use std::task::{Context, Poll, Waker};
 use std::time::Duration;
 
 use futures_util::StreamExt;
@@ -14,8 +15,12 @@ use hickory_net::runtime::iocompat::AsyncIoTokioAsStd;
 use hickory_net::runtime::{DnsUdpSocket, RuntimeProvider, Spawn};
 use hickory_net::udp::UdpClientStream;
 use hickory_net::xfer::DnsRequestSender;
+use hickory_net::DnsHandle;
 use hickory_proto::op::{DnsRequest, DnsRequestOptions, Message, MessageType, OpCode, Query};
-use hickory_proto::rr::{DNSClass, Name, RecordType};
+use hickory_proto::rr::rdata::tsig::TsigAlgorithm;
+use hickory_proto::rr::rdata::TXT;
+use hickory_proto::rr::TSigner;
+use hickory_proto::rr::{DNSClass, Name, RData, Record, RecordType};
 
 use super::vtime::{self, VTime};
 use crate::common::*;
@@ -37,6 +42,40 @@ pub enum Ev {
     E { delay: u64 },
 }
 
+/// what the provider answers to `bind_udp` for one transmission
+#[derive(Clone, Copy, Debug, PartialEq, Eq)]
+pub enum Bind {
+    Ok,
+    /// this many `AddrInUse` results in a row, then success
+    InUse(u32),
+    /// this many `PermissionDenied` results in a row, then success
+    Denied(u32),
+    /// an error of another kind
+    Other,
+    /// the bind future is not ready at once (pending once, then success)
+    Slow,
+}
+
+#[derive(Clone, Copy, Debug, PartialEq, Eq)]
+pub enum SendMode {
+    Ok,
+    Err,
+    /// `send_to` reports one byte less than the message has
+    Short,
+}
+
+#[derive(Clone, Copy, Debug, PartialEq, Eq)]
+pub struct Setup {
+    pub bind: Bind,
+    pub send: SendMode,
+}
+
+impl Default for Setup {
+    fn default() -> Self {
+        Setup { bind: Bind::Ok, send: SendMode::Ok }
+    }
+}
+
 #[derive(Clone, Debug)]
 pub struct UdpCase {
     pub timeout: u64,
@@ -53,8 +92,17 @@ pub struct UdpCase {
     /// itself when asked to, so the line's question is the *original* one and the scripted questions
     /// are re-expressed relative to the name that really went out, see `effective`)
     pub ctor: char,
+    /// entry point: `UdpClientStreamBuilder::exchange()` + `DnsHandle::send` instead of `build()` + `send_message`
+    pub via_exchange: bool,
+    /// the request carries a record that cannot be encoded (`request.to_vec()` fails)
+    pub unencodable: bool,
+    /// `with_signer(Some(..))`: requests with an AXFR / IXFR question go out TSIG-signed and the reply
+    /// is verified; the scripted datagrams are never signed
+    pub signer: bool,
     pub qs: Vec<Q>,
     pub scripts: Vec<Vec<Ev>>,
+    /// per transmission (missing = all fine)
+    pub setups: Vec<Setup>,
 }
 
 pub fn addr_tok(a: &SocketAddr) -> String {
@@ -144,7 +192,7 @@ fn parse_ev(s: &str) -> Option<Ev> {
 
 pub fn case_line(c: &UdpCase) -> String {
     let mut s = format!(
-        "udp {} {} {} {} {} {} {}{} {}",
+        "udp {} {} {} {} {} {} {}{}{}{}{} {}",
         c.timeout,
         c.retry_interval,
         c.floor,
@@ -153,10 +201,30 @@ pub fn case_line(c: &UdpCase) -> String {
         c.id,
         b(c.case_rand),
         c.ctor,
+        if c.via_exchange { "x" } else { "" },
+        if c.unencodable { "e" } else { "" },
+        if c.signer { "s" } else { "" },
         qs_tok(&c.qs)
     );
-    for sc in &c.scripts {
+    for (t, sc) in c.scripts.iter().enumerate() {
         s.push_str(" |");
+        if let Some(su) = c.setups.get(t).filter(|su| **su != Setup::default()) {
+            s.push_str(&format!(
+                " S;{};{}",
+                match su.bind {
+                    Bind::Ok => "ok".to_string(),
+                    Bind::InUse(n) => format!("inuse{n}"),
+                    Bind::Denied(n) => format!("denied{n}"),
+                    Bind::Other => "other".to_string(),
+                    Bind::Slow => "slow".to_string(),
+                },
+                match su.send {
+                    SendMode::Ok => "ok",
+                    SendMode::Err => "err",
+                    SendMode::Short => "short",
+                }
+            ));
+        }
         for e in sc {
             s.push(' ');
             s.push_str(&ev_tok(e));
@@ -170,11 +238,50 @@ pub fn parse_case(t: &[&str]) -> Option<UdpCase> {
         return None;
     }
     let mut scripts: Vec<Vec<Ev>> = vec![];
+    let mut setups: Vec<Setup> = vec![];
     for tok in &t[9..] {
         if *tok == "|" {
             scripts.push(vec![]);
+            setups.push(Setup::default());
+        } else if let Some(rest) = tok.strip_prefix("S;") {
+            if !scripts.last()?.is_empty() {
+                return None;
+            }
+            let (bd, sd) = rest.split_once(';')?;
+            let bind = if bd == "ok" {
+                Bind::Ok
+            } else if bd == "other" {
+                Bind::Other
+            } else if bd == "slow" {
+                Bind::Slow
+            } else if let Some(n) = bd.strip_prefix("inuse") {
+                Bind::InUse(n.parse().ok()?)
+            } else if let Some(n) = bd.strip_prefix("denied") {
+                Bind::Denied(n.parse().ok()?)
+            } else {
+                return None;
+            };
+            let send = match sd {
+                "ok" => SendMode::Ok,
+                "err" => SendMode::Err,
+                "short" => SendMode::Short,
+                _ => return None,
+            };
+            *setups.last_mut()? = Setup { bind, send };
         } else {
             scripts.last_mut()?.push(parse_ev(tok)?);
+        }
+    }
+    let flags = &t[7][1..];
+    let mut ctor = 'o';
+    let (mut via_exchange, mut unencodable, mut signer) = (false, false, false);
+    for ch in flags.chars() {
+        match ch {
+            'n' | 'o' | 'm' | 'f' => ctor = ch,
+            'x' => via_exchange = true,
+            'e' => unencodable = true,
+            's' => signer = true,
+            _ => return None,
         }
     }
     Some(UdpCase {
@@ -185,9 +292,13 @@ pub fn parse_case(t: &[&str]) -> Option<UdpCase> {
         server: parse_addr(t[5])?,
         id: t[6].parse().ok()?,
         case_rand: match &t[7][..1] { "1" => true, "0" => false, _ => return None },
-        ctor: match &t[7][1..] { "" | "o" => 'o', "n" => 'n', "m" => 'm', "f" => 'f', _ => return None },
+        ctor,
+        via_exchange,
+        unencodable,
+        signer,
         qs: parse_qs(t[8])?,
         scripts,
+        setups,
     })
 }
 
@@ -259,6 +370,9 @@ struct SockEv {
 
 #[derive(Default)]
 pub struct SockState {
+    send_mode: Option<SendMode>,
+    /// number of `bind_udp` calls made for this transmission
+    pub binds: u32,
     evs: VecDeque<SockEv>,
     pub consumed: usize,
     pub sent: Vec<(Vec<u8>, SocketAddr)>,
@@ -295,35 +409,50 @@ impl DnsUdpSocket for ScriptedUdp {
     }
 
     fn poll_send_to(&self, _cx: &mut Context<'_>, buf: &[u8], target: SocketAddr) -> Poll<io::Result<usize>> {
-        self.0.lock().unwrap().sent.push((buf.to_vec(), target));
-        Poll::Ready(Ok(buf.len()))
+        let mut s = self.0.lock().unwrap();
+        s.sent.push((buf.to_vec(), target));
+        match s.send_mode.unwrap_or(SendMode::Ok) {
+            SendMode::Ok => Poll::Ready(Ok(buf.len())),
+            SendMode::Short => Poll::Ready(Ok(buf.len().saturating_sub(1))),
+            SendMode::Err => Poll::Ready(Err(io::Error::new(io::ErrorKind::NetworkUnreachable, "scripted send error"))),
+        }
     }
 }
 
+type BgFuture = Pin<Box<dyn Future<Output = ()> + Send + 'static>>;
+
+/// `Spawn` handle that keeps the spawned background futures for the harness' own executor
 #[derive(Clone, Default)]
-pub struct NoSpawn;
-impl Spawn for NoSpawn {
-    fn spawn_bg(&mut self, _future: impl Future<Output = ()> + Send + 'static) {}
+pub struct KeepSpawn(pub Arc<Mutex<Vec<BgFuture>>>);
+impl Spawn for KeepSpawn {
+    fn spawn_bg(&mut self, future: impl Future<Output = ()> + Send + 'static) {
+        self.0.lock().unwrap().push(Box::pin(future));
+    }
 }
 
 #[derive(Default)]
 pub struct ProvState {
-    /// per transmission: (delay, datagram) lists, still relative
-    scripts: VecDeque<Vec<(u64, Option<(Vec<u8>, SocketAddr)>)>>,
+    /// per transmission: set-up behaviour and (delay, datagram) lists, still relative
+    scripts: VecDeque<(Setup, Vec<(u64, Option<(Vec<u8>, SocketAddr)>)>)>,
+    /// one entry per transmission that reached `bind_udp` (also when the bind then failed)
     pub sockets: Vec<Arc<Mutex<SockState>>>,
+    /// a transmission = all `bind_udp` calls made at one virtual instant
+    last_bind_at: Option<u64>,
+    cur: Option<(Setup, Vec<(u64, Option<(Vec<u8>, SocketAddr)>)>)>,
+    fails_left: u32,
 }
 
 #[derive(Clone, Default)]
-pub struct ScriptedProvider(pub Arc<Mutex<ProvState>>);
+pub struct ScriptedProvider(pub Arc<Mutex<ProvState>>, pub KeepSpawn);
 
 impl RuntimeProvider for ScriptedProvider {
-    type Handle = NoSpawn;
+    type Handle = KeepSpawn;
     type Timer = VTime;
     type Udp = ScriptedUdp;
     type Tcp = AsyncIoTokioAsStd<tokio::net::TcpStream>;
 
     fn create_handle(&self) -> Self::Handle {
-        NoSpawn
+        self.1.clone()
     }
 
     fn connect_tcp(
@@ -341,16 +470,51 @@ impl RuntimeProvider for ScriptedProvider {
         _server_addr: SocketAddr,
     ) -> Pin<Box<dyn Send + Future<Output = Result<Self::Udp, io::Error>>>> {
         let mut p = self.0.lock().unwrap();
-        let script = p.scripts.pop_front().unwrap_or_default();
-        let mut t = vtime::now();
+        let now = vtime::now();
+        if p.last_bind_at != Some(now) {
+            // a new transmission
+            p.last_bind_at = Some(now);
+            let (su, script) = p.scripts.pop_front().unwrap_or_default();
+            p.fails_left = match su.bind {
+                Bind::InUse(n) | Bind::Denied(n) => n,
+                _ => 0,
+            };
+            p.cur = Some((su, script));
+            p.sockets.push(Arc::new(Mutex::new(SockState::default())));
+        }
+        let st = p.sockets.last().unwrap().clone();
+        st.lock().unwrap().binds += 1;
+        let su = p.cur.as_ref().map(|c| c.0).unwrap_or_default();
+        if p.fails_left > 0 {
+            p.fails_left -= 1;
+            let kind = if matches!(su.bind, Bind::Denied(_)) { io::ErrorKind::PermissionDenied } else { io::ErrorKind::AddrInUse };
+            return Box::pin(async move { Err(io::Error::new(kind, "scripted bind failure")) });
+        }
+        if su.bind == Bind::Other {
+            return Box::pin(async { Err(io::Error::new(io::ErrorKind::AddrNotAvailable, "scripted bind failure")) });
+        }
+        let script = p.cur.take().map(|c| c.1).unwrap_or_default();
+        let mut t = now;
         let mut evs = VecDeque::new();
         for (d, dg) in script {
             t += d;
             evs.push_back(SockEv { at: t, dgram: dg });
         }
-        let st = Arc::new(Mutex::new(SockState { evs, consumed: 0, sent: vec![], bound: Some(local_addr) }));
-        p.sockets.push(st.clone());
-        Box::pin(async move { Ok(ScriptedUdp(st)) })
+        {
+            let mut s = st.lock().unwrap();
+            s.evs = evs;
+            s.send_mode = Some(su.send);
+            s.bound = Some(local_addr);
+        }
+        let mut slow = su.bind == Bind::Slow;
+        Box::pin(std::future::poll_fn(move |cx| {
+            if slow {
+                slow = false;
+                cx.waker().wake_by_ref();
+                return Poll::Pending;
+            }
+            Poll::Ready(Ok(ScriptedUdp(st.clone())))
+        }))
     }
 }
 
@@ -366,6 +530,41 @@ pub struct UdpRun {
     /// the request as it went out (bytes of the first transmission)
     pub sent_first: Option<Vec<u8>>,
     pub all_sent_to_server: bool,
+    /// local address each transmission's socket was bound to (None: the bind failed)
+    pub bound: Vec<Option<SocketAddr>>,
+    /// `bind_udp` calls per transmission
+    pub binds: Vec<u32>,
+    /// which builder options were set (derived from the query id, see `builder_variant`)
+    pub variant: u16,
+    /// via `exchange()`: did the background task end once every handle was dropped
+    pub bg_done: Option<bool>,
+}
+
+/// builder options exercised besides the scripted ones, chosen by the query id so that the case line
+/// stays as it is: 0 = none, 1 = `with_bind_addr(port 4444)`, 2 = `with_os_port_selection(true)`,
+/// 3 = `avoid_local_ports(all but 5000..=5063)`
+pub fn builder_variant(c: &UdpCase) -> u16 {
+    if c.setups.iter().any(|s| !matches!(s.bind, Bind::Ok | Bind::Slow)) {
+        return 0; // the bind retry budget is shared with avoided ports: keep the two apart
+    }
+    match c.id % 8 {
+        1 => 1,
+        2 => 2,
+        3 => 3,
+        _ => 0,
+    }
+}
+
+pub fn avoided_ports() -> Arc<HashSet<u16>> {
+    static SET: OnceLock<Arc<HashSet<u16>>> = OnceLock::new();
+    SET.get_or_init(|| Arc::new((1024..=u16::MAX).filter(|p| !(5000..=5063).contains(p)).collect())).clone()
+}
+
+pub fn fixed_bind_addr(server: &SocketAddr) -> SocketAddr {
+    match server {
+        SocketAddr::V4(_) => SocketAddr::new(IpAddr::V4(Ipv4Addr::UNSPECIFIED), 4444),
+        SocketAddr::V6(_) => SocketAddr::new(IpAddr::V6(Ipv6Addr::UNSPECIFIED), 4444),
+    }
 }
 
 fn marker(t: usize, j: usize) -> u32 {
@@ -383,6 +582,14 @@ pub fn dgram_bytes(t: usize, j: usize, e: &Ev) -> Option<(Vec<u8>, SocketAddr)> 
             *src,
         )),
     }
+}
+
+pub fn test_signer() -> TSigner {
+    TSigner::new(b"0123456789abcdef0123456789abcdef".to_vec(), TsigAlgorithm::HmacSha256, Name::from_ascii("key.test.").unwrap(), 300).unwrap()
+}
+
+pub fn unencodable_record() -> Record {
+    Record::from_rdata(Name::root(), 0, RData::TXT(TXT::from_bytes(vec![&[b'x'; 300][..]])))
 }
 
 fn lower_bytes(l: &[u8]) -> Vec<u8> {
@@ -418,6 +625,14 @@ pub fn prepare(c: &UdpCase) -> Option<(DnsRequest, UdpCase)> {
     msg.metadata.recursion_desired = true;
     for q in &c.qs {
         msg.queries.push(q_to_query(q)?);
+    }
+    if c.unencodable {
+        // a TXT record with a 300-octet character-string: `emit_character_data` refuses it (an oversize
+        // message would merely be truncated by the encoder, not refused)
+        msg.additionals.push(unencodable_record());
+        if msg.to_vec().is_ok() || c.ctor == 'f' {
+            return None;
+        }
     }
     let req = match c.ctor {
         'n' => DnsRequest::new(msg, opts),
@@ -491,24 +706,59 @@ pub fn run_case(c: &UdpCase, req: DnsRequest) -> Option<UdpRun> {
                 bs.push(dg.as_ref().map(|x| x.0.clone()));
                 v.push((d, dg));
             }
-            p.scripts.push_back(v);
+            p.scripts.push_back((c.setups.get(t).copied().unwrap_or_default(), v));
             all_bytes.push(bs);
         }
     }
 
-    let mut client = UdpClientStream::builder(c.server, prov.clone())
+    let variant = builder_variant(c);
+    let mut builder = UdpClientStream::builder(c.server, prov.clone())
         .with_timeout(Some(Duration::from_millis(c.timeout)))
         .with_max_retries(c.max_retries)
-        .with_retry_interval_floor(c.floor)
-        .build();
-    let mut stream = client.send_message(req);
-    let res = vtime::run_virtual(stream.next());
-    let end_time = vtime::now();
-    drop(stream);
+        .with_retry_interval_floor(c.floor);
+    if c.signer {
+        builder = builder.with_signer(Some(test_signer()));
+    }
+    builder = match variant {
+        1 => builder.with_bind_addr(Some(fixed_bind_addr(&c.server))),
+        2 => builder.with_os_port_selection(true),
+        3 => builder.avoid_local_ports(avoided_ports()),
+        _ => builder,
+    };
+    let mut bg_done = None;
+    let (res, end_time) = if c.via_exchange {
+        // the other public entry point: DnsExchange around the stream, background task on our executor
+        let exchange = builder.exchange();
+        let mut bgs: Vec<BgFuture> = std::mem::take(&mut *prov.1 .0.lock().unwrap());
+        let mut resp = exchange.send(req);
+        let res = vtime::run_virtual(std::future::poll_fn(|cx| {
+            for bg in bgs.iter_mut() {
+                let _ = bg.as_mut().poll(cx);
+            }
+            resp.poll_next_unpin(cx)
+        }));
+        let end_time = vtime::now();
+        drop(resp);
+        drop(exchange);
+        // nobody can send any more: the background task must shut the stream down and end
+        let w = Waker::from(vtime::CountWaker::new());
+        let mut cx = Context::from_waker(&w);
+        bg_done = Some(bgs.len() == 1 && bgs.iter_mut().all(|bg| (0..3).any(|_| bg.as_mut().poll(&mut cx).is_ready())));
+        (res, end_time)
+    } else {
+        let mut client = builder.build();
+        let mut stream = client.send_message(req);
+        let res = vtime::run_virtual(stream.next());
+        let end_time = vtime::now();
+        drop(stream);
+        (res, end_time)
+    };
     let p = prov.0.lock().unwrap();
     let consumed: Vec<usize> = p.sockets.iter().map(|s| s.lock().unwrap().consumed).collect();
     let sent_first = p.sockets.first().and_then(|s| s.lock().unwrap().sent.first().map(|x| x.0.clone()));
     let all_sent_to_server = p.sockets.iter().all(|s| s.lock().unwrap().sent.iter().all(|x| x.1 == c.server));
+    let bound: Vec<Option<SocketAddr>> = p.sockets.iter().map(|s| s.lock().unwrap().bound).collect();
+    let binds: Vec<u32> = p.sockets.iter().map(|s| s.lock().unwrap().binds).collect();
     let mut accepted = None;
     let outcome = match res {
         None => "hang".to_string(),
@@ -531,7 +781,7 @@ pub fn run_case(c: &UdpCase, req: DnsRequest) -> Option<UdpRun> {
             }
         }
     };
-    Some(UdpRun { outcome, accepted, consumed, end_time, sent_first, all_sent_to_server })
+    Some(UdpRun { outcome, accepted, consumed, end_time, sent_first, all_sent_to_server, bound, binds, variant, bg_done })
 }
 
 // ------------------------------------------------------------------------------------------------
@@ -587,4 +837,54 @@ pub fn mismatch(c: &UdpCase, e: &Ev) -> Option<&'static str> {
             }
         }
     }
+}
+
+/// The rest of `UdpClientStream`'s `DnsRequestSender` / `Stream` contract (no model side): ready while
+/// open, `shutdown` ends the stream, and `send_message` after it is the documented panic.
+pub fn sender_contract() -> Vec<String> {
+    let mut fails = vec![];
+    vtime::reset();
+    let server: SocketAddr = "192.0.2.1:53".parse().unwrap();
+    let mut client = UdpClientStream::builder(server, ScriptedProvider::default()).build();
+    if format!("{client}") != "UDP(192.0.2.1:53)" {
+        fails.push("Display of the client stream does not name the queried server".into());
+    }
+    let w = Waker::from(vtime::CountWaker::new());
+    let mut cx = Context::from_waker(&w);
+    if client.is_shutdown() || !matches!(client.poll_next_unpin(&mut cx), Poll::Ready(Some(Ok(())))) {
+        fails.push("an open UdpClientStream is not ready".into());
+    }
+    client.shutdown();
+    if !client.is_shutdown() || !matches!(client.poll_next_unpin(&mut cx), Poll::Ready(None)) {
+        fails.push("a shut down UdpClientStream does not end".into());
+    }
+    // the `Boxed` variant of DnsResponseStream (what the h2/h3/quic senders return): one item, then the end;
+    // a Timeout error is the end of the stream, any other error is an item
+    {
+        use hickory_net::xfer::DnsResponseStream;
+        use hickory_net::NetError;
+        use hickory_proto::op::DnsResponse;
+        let resp = DnsResponse::from_buffer(encode_dgram(7, true, &[], 1)).unwrap();
+        let mut ok: DnsResponseStream = Box::pin(async move { Ok::<_, NetError>(resp) }).into();
+        if !matches!(ok.poll_next_unpin(&mut cx), Poll::Ready(Some(Ok(r))) if r.id == 7) || !matches!(ok.poll_next_unpin(&mut cx), Poll::Ready(None)) {
+            fails.push("boxed response stream: not `response, end`".into());
+        }
+        let mut to: DnsResponseStream = Box::pin(async { Err::<DnsResponse, _>(NetError::Timeout) }).into();
+        if !matches!(to.poll_next_unpin(&mut cx), Poll::Ready(None)) {
+            fails.push("boxed response stream: a timeout is not the end of the stream".into());
+        }
+        let mut er: DnsResponseStream = Box::pin(async { Err::<DnsResponse, _>(NetError::from("x")) }).into();
+        if !matches!(er.poll_next_unpin(&mut cx), Poll::Ready(Some(Err(_)))) || !matches!(er.poll_next_unpin(&mut cx), Poll::Ready(None)) {
+            fails.push("boxed response stream: not `error, end`".into());
+        }
+    }
+    let msg = Message::new(1, MessageType::Query, OpCode::Query);
+    match crate::common::catch(move || {
+        let _ = client.send_message(DnsRequest::new(msg, DnsRequestOptions::default()));
+    }) {
+        Err(p) if p.contains("can not send messages after stream is shutdown") => {}
+        Err(p) => fails.push(format!("send_message after shutdown panicked with: {p}")),
+        Ok(()) => fails.push("send_message after shutdown was accepted".into()),
+    }
+    fails
 }
